@@ -613,7 +613,12 @@ static int sbdf_read_valuearray_int(FILE* file, sbdf_valuearray** handle)
 			}
 			else
 			{
-				err = sbdf_obj_skip_arr(file, byte_vt);
+				int ignored_row_cnt;
+				err = sbdf_read_int32(file, &ignored_row_cnt);
+				if (!err)
+				{
+					err = sbdf_obj_skip_arr(file, byte_vt);
+				}
 			}
 
 			if (err)
